@@ -53,6 +53,16 @@ pub(crate) fn decompress(data: &[u8], expected_size: usize) -> Result<Vec<u8>> {
         return Ok(output);
     }
 
+    // The exploder takes the two header bytes on trust: it treats every literal mode other
+    // than 1 as binary and shifts by the dictionary size byte, so check them here
+    // (binary mode; 4, 5 or 6 dictionary bits)
+    if data[0] != 0 || !matches!(data.get(1), Some(4..=6)) {
+        return Err(decompression_error(
+            "PKWare",
+            format!("invalid stream header {:02X?}", &data[..data.len().min(2)]),
+        ));
+    }
+
     let mut exploder = Exploder::new(&DEFAULT_CODE_TABLE);
     let mut output = Vec::with_capacity(expected_size);
     let mut input_pos = 0;
